@@ -74,9 +74,19 @@ def _err(rng, v):
     return [0.0, 1e-3 * abs(v), 0.1 * float(rng.uniform(0.1, 1.0)), float(rng.uniform(0.2, 2.0))][k]
 
 
+# central value exactly 0 (a fraction / asymmetry compatible with zero): a rule written in RELATIVE errors divides by it
+# (seeded change C09-05: __truediv__ as |a/b| sqrt((ea/a)^2 + (eb/b)^2) gives nan / ZeroDivisionError for a = 0)
+ZERO_VALUE_CASES = [
+    ("div", (0.0, 0.3, 2.0, 0.4)), ("div", (0.0, 0.3, -2.0, 0.0)), ("div", (-0.0, 0.25, 0.5, 0.1)),
+    ("mul", (0.0, 0.3, 2.0, 0.4)), ("mul", (2.0, 0.4, 0.0, 0.3)), ("mul", (0.0, 0.3, 0.0, 0.2)),
+    ("add", (0.0, 0.3, 0.0, 0.4)), ("sub", (0.0, 0.3, 1.5, 0.4)),
+    ("divS", (0.0, 0.3, -2.0)), ("mulS", (0.0, 0.3, -2.0)), ("exp", (0.0, 0.3)),
+]
+
+
 def gen_ne_cases(rng, n):
-    """(op, args) with args = (a, ea[, b, eb | c]); negative values / scalars and zero errors included."""
-    out = [(op, args) for op, args in WITNESSES]
+    """(op, args) with args = (a, ea[, b, eb | c]); negative values / scalars, zero errors and zero central values included."""
+    out = [(op, args) for op, args in WITNESSES] + [(op, args) for op, args in ZERO_VALUE_CASES if op in _OPD]
     for name, kind, _, _, _, _ in OPS:
         for i in range(n):
             if name in ("pow", "log"):
